@@ -331,7 +331,7 @@ pub fn random_worlds(o: &Opts) -> i32 {
                 c = nodes[c - 1]["parent"].as_u64().unwrap() as usize;
             }
         };
-        let no_range = json!({"present":false,"unit_ok":true,"ws":false,"specs":[]});
+        let no_range = json!({"present":false,"unit_ok":true,"ws":false,"style":"plain","specs":[]});
         let mut emit = |segs: Vec<String>, query: &str, frag: &str| {
             cout.emit(&json!({"w":id,"entry":"prod","method":"GET","lead":"/","segs":segs,"query":query,"frag":frag,
                               "range":no_range,"has_origin":false,"origin":"","preflight":false}));
